@@ -227,6 +227,9 @@ def run_function(repo, ref, args=(), kwargs=None, depth=0, outer=None):
     enclosing function when `ref` is a closure."""
     if depth > 40:
         raise Unknown("call depth")
+    if not isinstance(ref, FuncRef) or not isinstance(ref.node, (ast.FunctionDef, ast.Lambda)):
+        # any other callable value of the interpreter (closure, partial, instance with __call__, class)
+        return _Interp(repo, repo.mod("utils"), {}, depth).call_value(ref, list(args), dict(kwargs or {}))
     fn = ref.node
     module = ref.module
     names, defaults = func_params(fn)
@@ -524,14 +527,18 @@ class _Interp(object):
         if isinstance(n, ast.BinOp):
             l, r = self.expr(n.left), self.expr(n.right)
             try:
-                if isinstance(n.op, ast.Add):
-                    return l + r
-                if isinstance(n.op, ast.Mod):
-                    return l % r
-                if isinstance(n.op, ast.Sub):
-                    return l - r
-                if isinstance(n.op, ast.Mult):
-                    return l * r
+                import operator as _opr
+                _OPS = {ast.Add: _opr.add, ast.Mod: _opr.mod, ast.Sub: _opr.sub, ast.Mult: _opr.mul, ast.BitOr: _opr.or_, ast.BitAnd: _opr.and_, ast.BitXor: _opr.xor,
+                        ast.LShift: _opr.lshift, ast.RShift: _opr.rshift, ast.FloorDiv: _opr.floordiv, ast.Div: _opr.truediv, ast.Pow: _opr.pow}
+                fn_ = _OPS.get(type(n.op))
+                if fn_ is not None:
+                    return fn_(l, r)
+            except Unknown:
+                raise
+            except ZeroDivisionError:
+                raise Raised("ZeroDivisionError")
+            except TypeError:
+                raise Raised("TypeError", "binary operator")
             except Exception as e:
                 raise Unknown("binop raised %s" % e)
             raise Unknown("binop")
@@ -826,6 +833,17 @@ class _Interp(object):
                         return args[1]
                     raise Raised("StopIteration")
                 args = [seq] + list(args[1:])
+            if f.id == "setattr" and len(args) == 3 and isinstance(args[0], Obj) and isinstance(args[1], str) and f.id not in self.module.bindings:
+                args[0].attrs[args[1]] = args[2]
+                return None
+            if f.id == "hasattr" and len(args) == 2 and isinstance(args[0], Obj) and isinstance(args[1], str) and f.id not in self.module.bindings:
+                if args[1] in args[0].attrs:
+                    return True
+                try:
+                    _class_member(self.repo, args[0], args[1])
+                    return True
+                except Unknown:
+                    return False
             if f.id == "getattr" and len(args) >= 2 and isinstance(args[0], Obj) and isinstance(args[1], str):
                 o = args[0]
                 if args[1] in o.attrs:
